@@ -1,5 +1,6 @@
 import LentilVerif.Lemmas.FourierPad
 import LentilVerif.Lemmas.FourierWiring
+import LentilVerif.Model.FourierOut
 /-! # C01 — the matrix-triple-product DFT equals the defining Fourier sum and is invertible
 
 Property theorems only. `dft2`/`idft2` are the executable model of `lentil/fourier.py` (Model/Fourier.lean) instantiated
@@ -46,6 +47,20 @@ theorem idft2_follows_source_wiring (F : Arr ℂ) (αr αc : ℝ) (M N : ℤ) (s
         F.get F.s0 F.s1 (αr, αc) (M, N) (shr, shc) unitary i j := by
   unfold idft2 Gen.fwIdft2
   simp only [Gen.fwIdft2Offset, CxLike.conj, CxLike.divInt]
+
+/-- **writing into a caller-supplied buffer.** In the buffer model of the `out=` path (`Model/FourierOut.lean`; the dtype guard and
+"the result is the buffer" are regenerated from `dft2`): a buffer that cannot hold complex values is refused with `TypeError`; any
+other buffer — whatever it held before — ends up holding exactly the values of a fresh allocation, and is the returned object.
+*Caveat, no theorem:* the in-place call `out=f` (buffer aliasing the input) is outside this model — the input is read as a
+snapshot; that `E1.dot(f)` is evaluated before the buffer is written is NumPy's evaluation order, observed by the correspondence only. -/
+theorem dft2_out_buffer (f : Arr ℂ) (αr αc : ℝ) (M N : ℤ) (shr shc : ℝ) (offr offc : ℤ) (unitary : Bool) (b : OutBuf ℂ) :
+    (b.canCastComplex = false → dft2Out f αr αc M N shr shc offr offc unitary (some b) = OutCall.typeError) ∧
+    (b.canCastComplex = true → dft2Out f αr αc M N shr shc offr offc unitary (some b)
+      = OutCall.ok (dft2 f αr αc M N shr shc offr offc unitary) (some (dft2 f αr αc M N shr shc offr offc unitary)) true) ∧
+    dft2Out f αr αc M N shr shc offr offc unitary none = OutCall.ok (dft2 f αr αc M N shr shc offr offc unitary) none false := by
+  refine ⟨fun h => ?_, fun h => ?_, rfl⟩
+  · simp [dft2Out, Gen.fwOutRefused, h]
+  · simp [dft2Out, Gen.fwOutRefused, Gen.fwOutResultIsBuffer, h]
 
 /-- **defining sum of the inverse transform.** For every array, real samplings, output shape, real shifts and both flags:
 `idft2` is the double sum `Σ_u Σ_v F[u,v]·exp(+2πi(αr·U·X + αc·V·Y))` with `U = u − ⌊m/2⌋` (input origin at `⌊n/2⌋`, no
